@@ -398,7 +398,7 @@ pub fn run(ctx: &Ctx) {
     let mut sess = Session::new(ctx);
     let mut rng = Rng::new(ctx.seed);
     if let Some(v) = replay_input(ctx) {
-        if crate::rules::replay(&mut sess, &v) || crate::leaves::replay(&mut sess, &v) || crate::prules::replay(&mut sess, &v) || crate::rules2::replay(&mut sess, &v) {
+        if crate::rules::replay(&mut sess, &v) || crate::leaves::replay(&mut sess, &v) || crate::prules::replay(&mut sess, &v) || crate::rules2::replay(&mut sess, &v) || crate::mrules::replay(&mut sess, &v) {
             sess.nontrivial("replay-a");
             sess.nontrivial("replay-b");
             sess.finish("replay of one recorded rule input", false, json!({}));
@@ -536,8 +536,9 @@ pub fn run(ctx: &Ctx) {
     crate::leaves::run_into(&mut sess, ctx, &mut rng);
     crate::prules::run_into(&mut sess, ctx, &mut rng);
     crate::rules2::run_into(&mut sess, ctx, &mut rng);
+    crate::mrules::run_into(&mut sess, ctx, &mut rng);
     sess.finish(
-        &format!("{} {} {} {} {}", crate::rules::RULE, crate::leaves::RULE, crate::prules::RULE, crate::rules2::RULE, "pairs (P, D): P = 1–3 rule-test sentences free of quotation marks ending in [.!?] followed by a paragraph break (\\n\\n, \\n\\n\\n, space+\\n\\n); D = a rule-test sentence, the same with a curated opening (newlines, blank, digits, ordinal, @, :, lower case, quotes, apostrophe, punctuation, regexish, hex, decade, e.g., et al., etc.), lower-cased first letter, spice + prose, or a mutated / malformed text of the shared generator; plus a corpus of boundary witnesses and a small-scope grid (5 separators × 25 openings × 3 tails). K: PlainEnglish::parse (`lex`), Document::new (`doc`) and iter_paragraphs / iter_sentences / iter_chunks (`pieces`) on P, D and P+D against the Lean models. O: lint(P+D) = lint(P) ++ shift(lint(D)) as multisets of (span, kind, message, suggestions, priority), in the same order within each paragraph, none straddling the break; every rule on (chunk cache defeated by a config nonce) and curated defaults (long-lived caching group). Monitors: ClsOK (class-table laws on every character seen), ExtLocal, ExtNoNl, lex_append, DocAppend, parsePlain_ends_break/noQuotes, and the theorem document_append with its text-level hypotheses on the real token streams. Non-trivial = P has ≥8 and D ≥4 document tokens; distinct by (P, D)."),
+        &format!("{} {} {} {} {} {}", crate::rules::RULE, crate::leaves::RULE, crate::prules::RULE, crate::rules2::RULE, crate::mrules::RULE, "pairs (P, D): P = 1–3 rule-test sentences free of quotation marks ending in [.!?] followed by a paragraph break (\\n\\n, \\n\\n\\n, space+\\n\\n); D = a rule-test sentence, the same with a curated opening (newlines, blank, digits, ordinal, @, :, lower case, quotes, apostrophe, punctuation, regexish, hex, decade, e.g., et al., etc.), lower-cased first letter, spice + prose, or a mutated / malformed text of the shared generator; plus a corpus of boundary witnesses and a small-scope grid (5 separators × 25 openings × 3 tails). K: PlainEnglish::parse (`lex`), Document::new (`doc`) and iter_paragraphs / iter_sentences / iter_chunks (`pieces`) on P, D and P+D against the Lean models. O: lint(P+D) = lint(P) ++ shift(lint(D)) as multisets of (span, kind, message, suggestions, priority), in the same order within each paragraph, none straddling the break; every rule on (chunk cache defeated by a config nonce) and curated defaults (long-lived caching group). Monitors: ClsOK (class-table laws on every character seen), ExtLocal, ExtNoNl, lex_append, DocAppend, parsePlain_ends_break/noQuotes, and the theorem document_append with its text-level hypotheses on the real token streams. Non-trivial = P has ≥8 and D ≥4 document tokens; distinct by (P, D)."),
         false,
         json!({"configs": CONFIGS, "pairs": pairs.len()}),
     );
